@@ -82,14 +82,15 @@ const whyWidth = "two squares scaled by 2^40 realise the operand widths: a wrapp
 func init() {
 	register(&propDef{
 		id: "C13",
-		explanation: "Decides the 'no intermediate exceeds 64 bits' clause of C13 and a translation clause (the orientation, collinearity, slope, normal and distance primitives read coordinates only through same-axis differences, so they are exactly translation invariant): with every coordinate bounded by 2^61 (MaxCoord) a magnitude-bits abstract interpretation of all int64 +,-,* in the package (interprocedural parameter/return widths) shows no result can need more than 63 bits (width), and no integer is taken through float64 and back when it may exceed 53 bits (roundtrip). Products are formed by the 128-bit helpers, whose limb arithmetic is trusted. Does NOT decide the growth of float rounding error (the '2 units + 2^-40 extent' bound itself).",
-		notDecided: []string{"float rounding error growth in getDx/topX/getClosestPtOnSegment/offset constructors", "correctness of the 128-bit limb arithmetic (mulInt64, int128.add/sub/toFloat64, multiplyUInt64): bit-vector identities", "translation invariance of float expressions"},
+		explanation: "Decides the 'no intermediate exceeds 64 bits' clause of C13 and a translation clause (the orientation, collinearity, slope, normal and distance primitives read coordinates only through same-axis differences, so they are exactly translation invariant): with every coordinate bounded by 2^61 (MaxCoord) a magnitude-bits abstract interpretation of all int64 +,-,* in the package (interprocedural parameter/return widths) shows no result can need more than 63 bits (width), and no integer is taken through float64 and back when it may exceed 53 bits (roundtrip). Products are formed by the 128-bit helpers, whose limb arithmetic is decided by (limb): an abstract interpretation in the domain of exact polynomials shows, for every path and sign case, that mulInt64 returns a*b, int128.add/sub return x+y / x-y (modulo 2^128), toFloat64 returns lo + 2^64*hi, isZero tests both words, multiplyUInt64 returns a*b in two words and productsAreEqual compares both words of both products and nothing that may have wrapped. Does NOT decide the growth of float rounding error (the '2 units + 2^-40 extent' bound itself).",
+		notDecided: []string{"float rounding error growth in getDx/topX/getClosestPtOnSegment/offset constructors", "float64 rounding inside int128.toFloat64 (the real value is decided, the two roundings are not)", "translation invariance of float expressions"},
 		assumptions: []string{"a float the library converts to int64 has coordinate-difference magnitude (w+1 bits)", "`int` quantities (indices, counts, winding numbers) stay below 2^31"},
 		rules: []func(*Ctx){
 			ruleWidth("C13.width", 61, nil, 40, whyWidth),
 			ruleRoundTrip("C13.roundtrip", 61),
 			ruleOnlyDifferences("C13.translate", []string{"CrossProduct", "dotProduct64", "isCollinear", "getDx", "getUnitNormal", "PerpendicDistFromLineSqr64"}, 4,
 				"translating every input by the same vector must translate the result: a predicate that reads a coordinate other than through a same-axis difference gives different answers (and different rounding) far from the origin"),
+			ruleLimb("C13.limb", "mulInt64", "(int128).add", "(int128).sub", "(int128).toFloat64", "(int128).isZero", "multiplyUInt64", "productsAreEqual"),
 		},
 	})
 }
@@ -99,14 +100,15 @@ var exactPredicates = []string{"CrossProduct", "isCollinear", "productsAreEqual"
 func init() {
 	register(&propDef{
 		id: "C14",
-		explanation: "Decides structural clauses of C14 at |coord| <= 2^29: (sign) triSign is the sign function on every cell {x<0, 0, 1, x>1}; (exact) no int64 +,-,* in the measure/predicate functions can exceed 63 bits and no float operation in them combines integer-derived operands beyond the 53-bit mantissa, so the sign/zero tests of the cross product are exact (the 128-bit helpers' limb arithmetic is trusted); (bounds) the bounds accumulators start at the correct extreme, each bound is a min/max over its own axis and the four updates are independent; (pos) IsPositive64 is Area64 >= 0 and AreaPaths64 sums Area64. Does NOT decide the crossing-number walk of PointInPolygon or the 128-bit limb identities.",
-		notDecided: []string{"PointInPolygon's crossing-number walk (start-index wrap, IsOn cases)", "multiplyUInt64 / mulInt64 / int128 limb arithmetic (bit-vector identities)", "Area64's final halving in float64"},
+		explanation: "Decides structural clauses of C14 at |coord| <= 2^29: (sign) triSign is the sign function on every cell {x<0, 0, 1, x>1}; (exact) no int64 +,-,* in the measure/predicate functions can exceed 63 bits and no float operation in them combines integer-derived operands beyond the 53-bit mantissa, so the sign/zero tests of the cross product are exact; (limb) the 128-bit helpers compute what they say on every path (polynomial identities over split words: mulInt64 = a*b, add/sub modulo 2^128, toFloat64 = lo + 2^64*hi with the negation carry, isZero, multiplyUInt64 = a*b, productsAreEqual compares both words of exact products); (bounds) the bounds accumulators start at the correct extreme, each bound is a min/max over its own axis and the four updates are independent; (pos) IsPositive64 is Area64 >= 0 and AreaPaths64 sums Area64. Does NOT decide the crossing-number walk of PointInPolygon or float64 rounding inside toFloat64.",
+		notDecided: []string{"PointInPolygon's crossing-number walk (start-index wrap, IsOn cases)", "the two float64 roundings inside int128.toFloat64", "Area64's final halving in float64"},
 		rules: []func(*Ctx){
 			ruleTriSign("C14.sign"),
 			ruleWidth("C14.exact.int", 29, exactPredicates, 10, "at |coord| <= 2^29 every difference has 30 bits and every product 60: anything wider means a wrapped or truncated intermediate, i.e. a wrong sign for some triple"),
 			ruleExactFloat("C14.exact.float", 29, exactPredicates, "the library treats three points as collinear / a point as on an edge exactly when this value is zero: a float detour beyond 53 bits rounds small non-zero cross products to zero (PointInPolygon answers IsOn for an inside point next to a long edge)"),
 			ruleBounds("C14.bounds", []string{"GetBounds64", "getBounds"}),
 			ruleBoundsEmpty("C14.bounds.empty"),
+			ruleLimb("C14.limb", "mulInt64", "(int128).add", "(int128).sub", "(int128).toFloat64", "(int128).isZero", "multiplyUInt64", "productsAreEqual"),
 			rulePositive("C14.pos"),
 		},
 	})
@@ -172,10 +174,10 @@ func init() {
 func init() {
 	register(&propDef{
 		id: "C15",
-		explanation: "Decides structural clauses of C15: (subseq) every vertex appended to the result is an element of the input path; (only) in the main scan a vertex is dropped exactly when isCollinear(last kept vertex, path[i], path[i+1]) holds; (wrap) each wrap-around scan of a closed path compares the moving vertex with a FIXED anchor on the other side of the start index; (open) an open path's last point is appended unconditionally; (pred) the collinearity predicate is exact: triSign is the sign function per cell and the products are 128-bit with no float detour. Does NOT decide 'no three consecutive collinear vertices remain', idempotence or the wrap-around bookkeeping as a whole.",
+		explanation: "Decides structural clauses of C15: (subseq) every vertex appended to the result is an element of the input path; (only) in the main scan a vertex is dropped exactly when isCollinear(last kept vertex, path[i], path[i+1]) holds; (wrap) each wrap-around scan of a closed path compares the moving vertex with a FIXED anchor on the other side of the start index; (open) an open path's last point is appended unconditionally; (pred) the collinearity predicate is exact: triSign is the sign function per cell and the products are 128-bit with no float detour; (limb) multiplyUInt64 returns a*b in two words (every partial product and carry used once at its weight, no intermediate overflow — a polynomial identity over split words) and productsAreEqual answers true only after comparing both words of both products, false only when one of those comparisons fails, and never compares a 64-bit product that may have wrapped. Does NOT decide 'no three consecutive collinear vertices remain', idempotence or the wrap-around bookkeeping as a whole.",
 		notDecided: []string{"no three cyclically consecutive result vertices are collinear", "idempotence of trimming", "area and winding preservation (follow from the clauses above only if the wrap-around bookkeeping is right)", "result empty when fewer than 3 vertices remain"},
 		rules: []func(*Ctx){
-			ruleTrimCollinear("C15"), ruleTriSign("C15.pred"),
+			ruleTrimCollinear("C15"), ruleTriSign("C15.pred"), ruleLimb("C15.limb", "multiplyUInt64", "productsAreEqual"),
 			ruleExactFloat("C15.pred.float", 29, []string{"isCollinear", "productsAreEqual"}, "collinearity must be decided on the exact integer cross product"),
 			ruleWidth("C15.pred.int", 29, []string{"isCollinear", "productsAreEqual", "TrimCollinear64"}, 4, "a wrapped difference or product makes non-collinear points look collinear"),
 		},
